@@ -408,7 +408,7 @@ def result_oracle(i_seed):
     kind = rng.choice(["return", "return", "gen", "gen", "async", "asyncgen"])
     eager = rng.random() < 0.5
     vals = [rng.choice([1, "2", 3.0, "x", True]) for _ in range(rng.randint(1, 4))]
-    retv = rng.choice([7, "8", "z", None])
+    retv = rng.choice([7, "8", "z", None, 0, False, "", 0.0, "0"])
     yt, rt = rng.choice(["int", "str"]), rng.choice(["int", "str"])
     ns = dict(vars(dyn))
     T = {"int": int, "str": str}
